@@ -459,6 +459,9 @@ def c08(scn, x, worker_facts):
                 if r["name"].endswith("." + wid) or ("." + wid + ".") in r["name"]:
                     prev_pass[_strip_nets(r["name"])].add(wid)
     for e in x.trace:
+        if e["k"] == "door" and e.get("asked_by") and e["w"] != e["asked_by"]:
+            out.append({"what": f"state control ({e['do']}) for a test of worker {e['asked_by']} was carried out in the environment of {e['w']} (session {e.get('session')})",
+                        "signature": {"clause": "foreign-session", "at": "state-control"}})
         if e["k"] == "start":
             seq2start[e["seq"]] = e
             wf = worker_facts.get(e["w"])
@@ -468,6 +471,9 @@ def c08(scn, x, worker_facts):
             if e["nets"] != e["w"] or not e["name"].endswith(wf["name_suffix"]):
                 out.append({"what": f"{e['name']} (nets={e['nets']}) executed by worker {e['w']} it was not parsed for",
                             "signature": {"clause": "foreign-worker"}})
+            if e.get("spawner") == "remote" and e.get("handle") != e.get("shell_addr"):
+                out.append({"what": f"{e['short']} parsed for {e['w']} ({e.get('shell_addr')}) is spawned through the session to {e.get('handle')}",
+                            "signature": {"clause": "foreign-session", "at": "spawn"}})
             for k, v in wf["params"].items():
                 if e["nets_params"].get(k) != v:
                     out.append({"what": f"{e['short']} on {e['w']} runs with {k}={e['nets_params'].get(k)!r}, the worker has {v!r}",
@@ -683,12 +689,17 @@ def c10(scn, x):
                             "signature": {"clause": "wrong-count", "more": n_exec > expected}})
         else:
             # several workers: no execution may start once the statuses obtained so far (in trace order) forbid another try
-            obtained_so_far = list(p)
+            # results are shared within a reuse scope only (one worker / one swarm when the pool scope is narrowed; stateless tests: the whole run)
+            per_scope = collections.defaultdict(lambda: list(p))
             flagged = False
             for ev in x.trace:
-                if ev["k"] == "end" and ev["ident"] == ident:
+                if ev.get("ident") != ident or ev["k"] not in ("start", "end"):
+                    continue
+                sk = scope_key(seq2start[ev["seq"]]) if stateful else ("run",)
+                obtained_so_far = per_scope[sk]
+                if ev["k"] == "end":
                     obtained_so_far.append("error" if ev["status"] == "NORESULT" else ev["status"].lower())
-                elif ev["k"] == "start" and ev["ident"] == ident and not flagged:
+                elif not flagged:
                     known = list(obtained_so_far)
                     forced_first = stateful and first_check.get(ident) is False and not any(e2["k"] == "start" and e2["ident"] == ident and e2["seq"] < ev["seq"] for e2 in x.trace)
                     if known and not forced_first and (any(s_ not in rerun for s_ in known) or any(s_ in stop for s_ in known)):
@@ -698,6 +709,11 @@ def c10(scn, x):
                                     "signature": {"clause": "started-after-stop"}})
             if n_exec > max(mt, 1) and not stateful:
                 out.append({"what": f"{short(ident)} executed {n_exec} times with max_tries={mt}", "signature": {"clause": "over-budget"}})
+    # the two-step creation of an object is retried like a test: never more attempts than max_tries per reuse scope, distinct identifiers per worker
+    for v in c03(scn, x):
+        sig = v.get("signature", {})
+        if sig.get("clause") == "budget" and sig.get("kind") in ("creation-attempt", "install"):
+            out.append({"what": "object creation: " + v["what"], "signature": {"clause": "creation-over-budget", "kind": sig["kind"]}})
     # replay: "... unless a state it produces is missing" - a setup test with an acceptable previous result whose state is in no pool
     # at all when the run starts has to be executed again (decided from the world, not from the code's own scan requests)
     if replay and scn.previous and not getattr(scn, "dry", False):
@@ -715,8 +731,8 @@ def c10(scn, x):
                             "signature": {"clause": "missing-state-not-rerun"}})
     # each execution reads its own result: the results stored on the nodes are the outcomes the world assigned, try by try
     for n in x.final["nodes"]:
-        if n["flat"] or n["shared_root"]:
-            continue
+        if n["flat"] or n["shared_root"] or n["object_root"]:
+            continue  # (an object's creation node also books failed configuration steps as tries: not a one-to-one read-back)
         mine = [(e["seq"], e["uid"]) for e in by_test.get(n["ident"], []) if e["name"] == n["name"]]
         world = []
         for seq, uid in mine:
